@@ -186,7 +186,7 @@ RecvSKE(s, m) ==
   IF s.role # "C" THEN Res(s, <<>>)
   ELSE IF m.bad THEN Res(s, <<>>)                                    \* undecodable: ignored, stays unverified
   ELSE IF s.peerCert = "-" \/ s.cr = "-" \/ s.sr = "-" THEN Fail(s)
-  ELSE IF m.sigBy = s.peerCert /\ m.sigCr = s.cr /\ m.sigSr = s.sr /\ m.sigDh = m.dh
+  ELSE IF m.sigBy = s.peerCert /\ m.sigCr \in {s.cr, "*"} /\ m.sigSr \in {s.sr, "*"} /\ m.sigDh = m.dh
        THEN Res([s EXCEPT !.skeOk = TRUE, !.peerDh = m.dh], <<>>)
        ELSE Fail(s)
 
@@ -400,9 +400,11 @@ AppOf(s) == [Msg("APP", 0) EXCEPT !.enc = s.keys]
 Rewrite(kind, m) ==
   CASE kind = "rw_cert"     -> [m EXCEPT !.cert = "certM"]
     [] kind = "rw_ske_key"  -> [m EXCEPT !.dh = "dhM"]                                   \* signature left as is
-    [] kind = "rw_ske_sig"  -> [m EXCEPT !.sigBy = "certM", !.sigN = "M"]                \* re-signed by M (ECDSA is
-                                                                                         \* randomised: new bytes)
-    [] kind = "rw_ske_full" -> [m EXCEPT !.dh = "dhM", !.sigDh = "dhM", !.sigBy = "certM", !.sigN = "M"]
+    \* M sees both hellos in clear, so what it signs itself covers the randoms the verifier holds ("*")
+    [] kind = "rw_ske_sig"  -> [m EXCEPT !.sigBy = "certM", !.sigN = "M", !.sigCr = "*", !.sigSr = "*"]
+                                                                     \* re-signed by M (ECDSA is randomised: new bytes)
+    [] kind = "rw_ske_full" -> [m EXCEPT !.dh = "dhM", !.sigDh = "dhM", !.sigBy = "certM", !.sigN = "M",
+                                         !.sigCr = "*", !.sigSr = "*"]
     [] kind = "rw_crand"    -> [m EXCEPT !.rnd = "rM"]
     [] kind = "rw_srand"    -> [m EXCEPT !.rnd = "rM"]
     [] kind = "rw_prof"     -> [m EXCEPT !.prof = "7"]
